@@ -240,3 +240,17 @@ Theorem c20_entity_followup_untouched : forall bo resolved p' idx r items,
     forall pos, ~ In pos idx -> nth_error items' pos = nth_error items pos.
 Proof. exact entity_followup_untouched. Qed.
 Print Assumptions c20_entity_followup_untouched.
+
+(* ---- S3: the answer is a projection of the service's data ---- *)
+
+(* list wrappers at EVERY nesting depth: whatever the wrapper messages hold, the list the builder renders is
+   the projection of the service's data -- null exactly where a wrapper's list is unset, the service's
+   lengths at every level -- provided the items are (the hypothesis on [sub], the builder of the item
+   message).  A builder that renders a null inner list as [] (seeded regression C20-m1) breaks exactly this. *)
+Theorem c20_list_wrapper_projection : forall em sub t levels,
+  (forall m j, sub m = Ok j -> proj_chk em t (FMsg m) j = None) ->
+  forall k level data v,
+    traverse em sub true levels k level data = Ok v ->
+    proj_chk em (nest_plist (S k) t) (FMsg data) v = None.
+Proof. exact traverse_projection. Qed.
+Print Assumptions c20_list_wrapper_projection.
